@@ -199,8 +199,7 @@ Definition visit_break (l : option N) (x : st) : st :=
   else set_fb x (Some l).
 
 (* closures passed to with_child_scope(Loop, ..) by the loop visitors, after `n.body.visit_with(a)` *)
-Definition while_post (c : cond) (body_lo : N) (a : st) : st :=
-  let end_reason := get_end_reason a body_lo in
+Definition while_post_r (end_reason : option End) (c : cond) (body_lo : N) (a : st) : st :=
   let return_or_throw := oend_forced end_reason in
   let has_break := fb_unlabelled (s_fb (sc a)) in
   if known_true c && return_or_throw && negb has_break then
@@ -211,9 +210,10 @@ Definition while_post (c : cond) (body_lo : N) (a : st) : st :=
   else if known_true c && negb has_break then
     set_end (mark_as_end body_lo forced_inf a) (Some forced_inf)
   else set_end (mark_as_end body_lo EContinue a) (Some EContinue).
+Definition while_post (c : cond) (body_lo : N) (a : st) : st :=
+  while_post_r (get_end_reason a body_lo) c body_lo a.
 
-Definition dowhile_post (c : cond) (body_lo : N) (a : st) : st :=
-  let end_reason := get_end_reason a body_lo in
+Definition dowhile_post_r (end_reason : option End) (c : cond) (body_lo : N) (a : st) : st :=
   let return_or_throw := oend_forced end_reason in
   let infinite_loop := known_true c && fb_none (s_fb (sc a)) in
   let has_break := fb_unlabelled (s_fb (sc a)) in
@@ -225,34 +225,42 @@ Definition dowhile_post (c : cond) (body_lo : N) (a : st) : st :=
   else if infinite_loop then
     set_end (mark_as_end body_lo forced_inf a) (Some forced_inf)
   else set_end (mark_as_end body_lo EContinue a) (Some EContinue).
+Definition dowhile_post (c : cond) (body_lo : N) (a : st) : st :=
+  dowhile_post_r (get_end_reason a body_lo) c body_lo a.
 
-Definition for_post (p : N) (c : option cond) (body_lo : N) (a : st) : st :=
+Definition for_e (end_reason : option End) : End :=
+  match end_reason with
+  | Some e => if is_forced e then e else forced_inf
+  | None => forced_inf
+  end.
+Definition for_forced (c : option cond) (a : st) : bool :=
+  negb (fb_unlabelled (s_fb (sc a))) && match c with None => true | Some c => known_true c end.
+Definition for_post_r (end_reason : option End) (p : N) (c : option cond) (body_lo : N) (a : st) : st :=
   let has_break := fb_unlabelled (s_fb (sc a)) in
-  let e := match get_end_reason a body_lo with
-           | Some e => if is_forced e then e else forced_inf
-           | None => forced_inf
-           end in
-  let forced := negb has_break && match c with None => true | Some c => known_true c end in
-  let a := if forced then mark_as_end p e a else a in
+  let forced := for_forced c a in
+  let a := if forced then mark_as_end p (for_e end_reason) a else a in
   if negb forced || has_break then set_end (mark_as_end body_lo EContinue a) (Some EContinue) else a.
+Definition for_post (p : N) (c : option cond) (body_lo : N) (a : st) : st :=
+  for_post_r (get_end_reason a body_lo) p c body_lo a.
 
 Definition forin_post (body_lo : N) (a : st) : st :=
   set_end (mark_as_end body_lo EContinue a) (Some EContinue).
 
-(* fn visit_if_stmt, the `match (cons_reason, alt_reason)` *)
-Definition if_else_end (p : N) (cons_reason alt_reason : option End) (x : st) : st :=
+(* fn visit_if_stmt, the `match (cons_reason, alt_reason)`: the end to mark (None = the unwrap fails) *)
+Definition if_else_mark (cons_reason alt_reason : option End) : option End :=
   match cons_reason, alt_reason with
   | Some a, Some b =>
-      if is_forced a && is_forced b then
-        match merge_forced a b with
-        | Some e => mark_as_end p e x
-        | None => set_panic x                               (* x.merge_forced(y).unwrap() *)
-        end
+      if is_forced a && is_forced b then merge_forced a b   (* x.merge_forced(y).unwrap() *)
       else match a, b with
-           | EBreak, EBreak | Forced _ _ _, EBreak | EBreak, Forced _ _ _ => mark_as_end p EBreak x
-           | _, _ => mark_as_end p EContinue x
+           | EBreak, EBreak | Forced _ _ _, EBreak | EBreak, Forced _ _ _ => Some EBreak
+           | _, _ => Some EContinue
            end
-  | _, _ => mark_as_end p EContinue x
+  | _, _ => Some EContinue
+  end.
+Definition if_else_end (p : N) (cons_reason alt_reason : option End) (x : st) : st :=
+  match if_else_mark cons_reason alt_reason with
+  | Some e => mark_as_end p e x
+  | None => set_panic x
   end.
 
 (* fn visit_try_stmt, the match after the handler when the try block may throw *)
@@ -289,109 +297,135 @@ Definition case_end_of (cs : scope) : End :=
 
 Definition is_none {A} (o : option A) : bool := match o with None => true | Some _ => false end.
 
-(* fn visit_stmt (sets `unreachable`, with the hoisting exceptions) followed by the
-   statement's own visitor *)
-Fixpoint an (s : stmt) (x : st) {struct s} : st :=
+(* fn with_child_scope(kind, start, op) *)
+Definition with_child (k : kind) (start : N) (op : st -> st) (x : st) : st :=
+  child_exit k start x (op (child_enter k x)).
+
+(* The visitors.  Sub-statements are analysed by the closures `op..` (the recursive calls of `an`),
+   exactly where the Rust calls `visit_with` / `visit_stmt_or_block` on them. *)
+Definition visit_fn_like (p pb : N) (body : st -> st) (x : st) : st :=
+  with_child KFunction p (fun a => block_end pb (body a)) x.
+
+Definition visit_return (p : N) (arg : option expr) (x : st) : st :=
+  mark_as_end p forced_return (match arg with Some e => visit_e e x | None => x end).
+
+Definition visit_throw (p : N) (e : expr) (x : st) : st :=
+  let x := visit_e e x in
+  mark_as_end p forced_throw (if fixD fx then visit_lit x else x).
+
+Definition visit_if (p : N) (c : cond) (p1 : N) (op1 : st -> st) (x : st) : st :=
+  let x := visit_cond c x in
+  let prev_end := s_end (sc x) in
+  let x := with_child KIf p1 op1 x in
+  set_end (mark_as_end p EContinue x) prev_end.
+
+Definition visit_if_else (p : N) (c : cond) (p1 : N) (op1 : st -> st) (p2 : N) (op2 : st -> st) (x : st) : st :=
+  let x := visit_cond c x in
+  let x := with_child KIf p1 op1 x in
+  let cons_reason := get_end_reason x p1 in
+  let x := with_child KIf p2 op2 x in
+  let alt_reason := get_end_reason x p2 in
+  if_else_end p cons_reason alt_reason x.
+
+Definition visit_while (c : cond) (body_lo : N) (body : st -> st) (x : st) : st :=
+  visit_cond c (with_child KLoop body_lo (fun a => while_post c body_lo (body a)) x).
+
+Definition dowhile_tail (r : option End) (p : N) (c : cond) (x : st) : st :=
+  visit_cond c (match r with
+                | Some e => if is_forced e then mark_as_end p e x else x
+                | None => x
+                end).
+Definition visit_do_while (p : N) (c : cond) (body_lo : N) (body : st -> st) (x : st) : st :=
+  let x := with_child KLoop body_lo (fun a => dowhile_post c body_lo (body a)) x in
+  dowhile_tail (get_end_reason x body_lo) p c x.
+
+Definition visit_for (p : N) (c : option cond) (body_lo : N) (body : st -> st) (x : st) : st :=
+  let x := match c with Some c => visit_cond c x | None => x end in
+  with_child KLoop body_lo (fun a => for_post p c body_lo (body a)) x.
+
+Definition visit_for_in (body_lo : N) (body : st -> st) (x : st) : st :=
+  with_child KLoop body_lo (fun a => forin_post body_lo (body a)) x.
+
+Definition switch_end (forced_end : option End) (hd : bool) : End :=
+  match forced_end with
+  | Some e => if hd then e else EContinue
+  | None => EContinue
+  end.
+Definition switch_tail (e : End) (p : N) (prev_end : option End) (x : st) : st :=
+  let x := mark_as_end p e x in
+  if is_forced e then x else set_end x prev_end.
+Definition visit_switch (p : N) (cs : cases) (opc : st -> st) (x : st) : st :=
+  let prev_end := s_end (sc x) in
+  let x := opc x in
+  switch_tail (switch_end (switch_forced cs x (Some (Forced false false false))) (has_default cs)) p prev_end x.
+
+Definition visit_case (cp : N) (cons : st -> st) (y : st) : st :=
+  let prev_end := s_end (sc y) in
+  let c := cons (child_enter KCase y) in
+  let y := child_exit KCase cp y c in
+  let y := mark_as_end cp (case_end_of (sc c)) y in
+  set_end y prev_end.
+
+(* fn visit_try_stmt in three steps; `prev_end` / `old_throw` are the scope's values on entry *)
+Definition try_handler (cp hbp : N) (prev_end : option End) (hb : st -> st) (x : st) : st :=
+  let try_block_end := s_end (sc x) in
+  let try_block_may_throw := s_mt (sc x) in
+  let x := if try_block_may_throw then set_end x prev_end else x in
+  let x := set_mt x false in
+  let x := with_child KCatch cp (fun a => block_end hbp (hb a)) x in
+  if try_block_may_throw then try_catch_merge try_block_end x else set_end x try_block_end.
+
+Definition try_finalizer (fp : N) (prev_end : option End) (fb : st -> st) (x : st) : st :=
+  let try_catch_end := s_end (sc x) in
+  let x := set_end x prev_end in
+  let x := with_child KFinally fp (fun a => block_end fp (fb a)) x in
+  try_finally_merge try_catch_end x.
+
+Definition try_finish (p : N) (old_throw : bool) (x : st) : st :=
+  let x := match s_end (sc x) with Some e => mark_as_end p e x | None => x end in
+  set_mt x (s_mt (sc x) || old_throw).
+
+Definition visit_try (p bp : N) (blk : st -> st) (h : option (N * N)) (hb : st -> st)
+           (f : option N) (fb : st -> st) (x : st) : st :=
+  let old_throw := s_mt (sc x) in
+  let prev_end := s_end (sc x) in
+  let x := block_end bp (blk (set_mt x false)) in
+  let x := match h with Some (cp, hbp) => try_handler cp hbp prev_end hb x | None => x end in
+  let x := match f with Some fp => try_finalizer fp prev_end fb x | None => x end in
+  try_finish p old_throw x.
+
+(* fn visit_stmt: sets `unreachable` (with the hoisting exceptions), then the statement's visitor *)
+Definition stmt_unreachable (s : stmt) (x : st) : bool :=
   match s with
-  | SExpr p e => visit_e e (set_unreach p (dead_now x) x)
-  | SEmpty p => set_unreach p false x
-  | SVar p isv init =>
-      let x := set_unreach p (dead_now x && negb (isv && is_none init)) x in
-      match init with Some e => visit_e e x | None => x end
-  | SFnDecl p name pb body =>
-      let x := set_unreach p (dead_now x && negb (memN name (s_hoist (sc x)))) x in
-      child_exit KFunction p x (block_end pb (an_list body (child_enter KFunction x)))
-  | SArrowStmt p pb body =>
-      let x := set_unreach p (dead_now x) x in
-      let x := child_exit KFunction p x (block_end pb (an_list body (child_enter KFunction x))) in
-      visit_lit x
-  | SRet p arg =>
-      let x := set_unreach p (dead_now x) x in
-      let x := match arg with Some e => visit_e e x | None => x end in
-      mark_as_end p forced_return x
-  | SThrow p e =>
-      let x := set_unreach p (dead_now x) x in
-      let x := visit_e e x in
-      let x := if fixD fx then visit_lit x else x in
-      mark_as_end p forced_throw x
-  | SBrk p l => visit_break l (set_unreach p (dead_now x) x)
-  | SCont p l => set_fc (set_unreach p (dead_now x) x) true
-  | SBlock p b =>
-      let x := set_unreach p (dead_now x) x in
-      block_end p (an_list b x)
-  | SIf p c s1 =>
-      let x := set_unreach p (dead_now x) x in
-      let x := visit_cond c x in
-      let prev_end := s_end (sc x) in
-      let x := child_exit KIf (pos s1) x (orb_mark s1 (an s1 (child_enter KIf x))) in
-      set_end (mark_as_end p EContinue x) prev_end
+  | SEmpty _ => false
+  | SVar _ isv init => dead_now x && negb (isv && is_none init)
+  | SFnDecl _ name _ _ => dead_now x && negb (memN name (s_hoist (sc x)))
+  | _ => dead_now x
+  end.
+
+Fixpoint an (s : stmt) (x0 : st) {struct s} : st :=
+  let x := set_unreach (pos s) (stmt_unreachable s x0) x0 in
+  match s with
+  | SExpr p e => visit_e e x
+  | SEmpty p => x
+  | SVar p isv init => match init with Some e => visit_e e x | None => x end
+  | SFnDecl p name pb body => visit_fn_like p pb (an_list body) x
+  | SArrowStmt p pb body => visit_lit (visit_fn_like p pb (an_list body) x)
+  | SRet p arg => visit_return p arg x
+  | SThrow p e => visit_throw p e x
+  | SBrk p l => visit_break l x
+  | SCont p l => set_fc x true
+  | SBlock p b => block_end p (an_list b x)
+  | SIf p c s1 => visit_if p c (pos s1) (fun a => orb_mark s1 (an s1 a)) x
   | SIfElse p c s1 s2 =>
-      let x := set_unreach p (dead_now x) x in
-      let x := visit_cond c x in
-      let x := child_exit KIf (pos s1) x (orb_mark s1 (an s1 (child_enter KIf x))) in
-      let cons_reason := get_end_reason x (pos s1) in
-      let x := child_exit KIf (pos s2) x (orb_mark s2 (an s2 (child_enter KIf x))) in
-      let alt_reason := get_end_reason x (pos s2) in
-      if_else_end p cons_reason alt_reason x
-  | SWhile p c b =>
-      let x := set_unreach p (dead_now x) x in
-      let x := child_exit KLoop (pos b) x (while_post c (pos b) (an b (child_enter KLoop x))) in
-      visit_cond c x
-  | SDoWhile p b c =>
-      let x := set_unreach p (dead_now x) x in
-      let x := child_exit KLoop (pos b) x (dowhile_post c (pos b) (an b (child_enter KLoop x))) in
-      let x := match get_end_reason x (pos b) with
-               | Some e => if is_forced e then mark_as_end p e x else x
-               | None => x
-               end in
-      visit_cond c x
-  | SFor p c b =>
-      let x := set_unreach p (dead_now x) x in
-      let x := match c with Some c => visit_cond c x | None => x end in
-      child_exit KLoop (pos b) x (for_post p c (pos b) (an b (child_enter KLoop x)))
-  | SForIn p b | SForOf p b =>
-      let x := set_unreach p (dead_now x) x in
-      child_exit KLoop (pos b) x (forin_post (pos b) (an b (child_enter KLoop x)))
-  | SSwitch p cs =>
-      let x := set_unreach p (dead_now x) x in
-      let prev_end := s_end (sc x) in
-      let x := an_cases cs x in
-      let e := match switch_forced cs x (Some (Forced false false false)) with
-               | Some e => if has_default cs then e else EContinue
-               | None => EContinue
-               end in
-      let x := mark_as_end p e x in
-      if is_forced e then x else set_end x prev_end
-  | SLabel p l b =>
-      let x := set_unreach p (dead_now x) x in
-      child_exit (KLabel l) p x (orb_mark b (an b (child_enter (KLabel l) x)))
-  | STry p bp blk h hb f fb =>
-      let x := set_unreach p (dead_now x) x in
-      let old_throw := s_mt (sc x) in
-      let prev_end := s_end (sc x) in
-      let x := set_mt x false in
-      let x := block_end bp (an_list blk x) in
-      let try_block_end := s_end (sc x) in
-      let try_block_may_throw := s_mt (sc x) in
-      let x := match h with
-               | None => x
-               | Some (cp, hbp) =>
-                   let x := if try_block_may_throw then set_end x prev_end else x in
-                   let x := set_mt x false in
-                   let x := child_exit KCatch cp x (block_end hbp (an_list hb (child_enter KCatch x))) in
-                   if try_block_may_throw then try_catch_merge try_block_end x
-                   else set_end x try_block_end
-               end in
-      let x := match f with
-               | None => x
-               | Some fp =>
-                   let try_catch_end := s_end (sc x) in
-                   let x := set_end x prev_end in
-                   let x := child_exit KFinally fp x (block_end fp (an_list fb (child_enter KFinally x))) in
-                   try_finally_merge try_catch_end x
-               end in
-      let x := match s_end (sc x) with Some e => mark_as_end p e x | None => x end in
-      set_mt x (s_mt (sc x) || old_throw)
+      visit_if_else p c (pos s1) (fun a => orb_mark s1 (an s1 a)) (pos s2) (fun a => orb_mark s2 (an s2 a)) x
+  | SWhile p c b => visit_while c (pos b) (an b) x
+  | SDoWhile p b c => visit_do_while p c (pos b) (an b) x
+  | SFor p c b => visit_for p c (pos b) (an b) x
+  | SForIn p b | SForOf p b => visit_for_in (pos b) (an b) x
+  | SSwitch p cs => visit_switch p cs (an_cases cs) x
+  | SLabel p l b => with_child (KLabel l) p (fun a => orb_mark b (an b a)) x
+  | STry p bp blk h hb f fb => visit_try p bp (an_list blk) h (an_list hb) f (an_list fb) x
   end
 (* fn visit_stmts *)
 with an_list (l : stmts) (y : st) {struct l} : st :=
@@ -403,12 +437,7 @@ with an_list (l : stmts) (y : st) {struct l} : st :=
 with an_cases (cs : cases) (y : st) {struct cs} : st :=
   match cs with
   | CNil => y
-  | CCons cp _ _ cns r =>
-      let prev_end := s_end (sc y) in
-      let c := an_list cns (child_enter KCase y) in
-      let y := child_exit KCase cp y c in
-      let y := mark_as_end cp (case_end_of (sc c)) y in
-      an_cases r (set_end y prev_end)
+  | CCons cp _ _ cns r => an_cases r (visit_case cp (an_list cns) y)
   end.
 
 (* A function-like body analysed in a fresh Function scope (fn visit_function /
